@@ -151,7 +151,7 @@ class Earley:
         # rules in a topological order.
         self.order = cfg._unary_graph_transpose().buckets
 
-        self.ORDER_MAX = max(self.order.values())
+        self.ORDER_MAX = 1 + max(self.order.values())
 
         # left-corner graph
         R = WeightedGraph(Boolean)
